@@ -85,6 +85,45 @@ def oracle_cases(cases, real):
     return qs, idx
 
 
+def written_files(ctx):
+    """the specifiers in files that were really written: output paths that leave the export directory through `..` by different
+    numbers of levels, importing each other and files inside it (the specifier has to walk back down THROUGH the export directory)"""
+    import posixpath
+    import e2e
+    from gen_corpus import P, N
+    from props import tsparse
+    def st(name, to, deps):
+        return {"kind": "struct", "name": name, "shape": "named", "attrs": ({"export_to": to} if to else {}), "generics": [],
+                "fields": [{"name": f"f{k}", "ty": N(d), "attrs": {}} for k, d in enumerate(deps)] or [{"name": "x", "ty": P("u8"), "attrs": {}}]}
+    items = [st("WInner", "models/WInner.ts", []), st("WPlain", None, []), st("WDeep", "a/b/c/WDeep.ts", ["WInner"]),
+             st("WOuter", "../wshared/WOuter.ts", ["WInner", "WPlain", "WDeep"]), st("WOuter2", "../../wfar/x/WOuter2.ts", ["WOuter", "WInner"]),
+             st("WSide", "../wshared/WSide.ts", ["WOuter", "WOuter2"]), st("WIn", "sub/WIn.ts", ["WOuter", "WOuter2", "WDeep"])]
+    progs = [{"items": items, "probes": [{"ty": N(it["name"]), "values": []} for it in items]}]
+    real, _ = e2e.build_and_run(ctx, "c08w", progs)
+    if real is None:
+        return
+    base = os.path.join(vlib.SCRATCH, "c08w", "lvl1", "lvl2", "exportdir")      # two levels of room above the export directory
+    steps, _ = e2e.run_export(ctx, "c08w", "env", base)
+    top = os.path.join(vlib.SCRATCH, "c08w")
+    tree = {}
+    for root, _, files in os.walk(top):
+        for fn in files:
+            if fn.endswith(".ts"):
+                tree[os.path.relpath(os.path.join(root, fn), top)] = open(os.path.join(root, fn), encoding="utf-8").read()
+    probs = tsparse.closure_problems(tree)
+    n = sum(len(tsparse.parse_file(t)["imports"]) for t in tree.values())
+    if any(x != "ok" for st_ in steps for x in st_):
+        probs.append(f"export returned {steps}")
+    if len(tree) != len(items):
+        probs.append(f"{len(tree)} files written for {len(items)} types: {sorted(tree)}")
+    if probs:
+        ctx.violation("an import specifier in a written file does not resolve to the file the dependency was written to: " + "; ".join(probs[:3]),
+                      {"items": [e2e.item_rs(it) for it in items], "entry": "export_all() with TS_RS_EXPORT_DIR"}, {"files": {k: v[:400] for k, v in tree.items()}})
+    ctx.stream("specifiers in written files (output paths leaving the export directory)", n, len(tree),
+               "7 types whose export_to stays inside / leaves the export directory by one / two levels, importing each other; exported through export_all() with "
+               "TS_RS_EXPORT_DIR; every import statement of every written file resolved against the files really written (tools/props/tsparse.py)", [], {"problems": len(probs)})
+
+
 def run(ctx):
     proof = vlib.lean_check(ctx)
     total, nontriv, samples = 0, 0, []
@@ -115,6 +154,7 @@ def run(ctx):
                    "plus random deeper pairs; non-trivial = distinct pairs whose real specifier crosses a directory" % (DIRS, FILES, ODD_FILES, 1 if ctx.quick else 2),
                    samples, {"oracle_evaluated": len(qs), "oracle_failed": len(bad), "model_disagreements": len(dis),
                              "errors_or_panics": sum(1 for r in real if "ok" not in r)})
+    written_files(ctx)
     ctx.assumptions += [
         "C08 domain: the imported file's name ends in `.ts` and its stem is non-empty and does not itself end in `.ts`/`.js` "
         "(for such names 'no .ts extension'/'.js iff esm' and 'resolves' contradict each other); no path climbs above `/`; Unix paths only",
